@@ -372,6 +372,53 @@ func callOrder(fd *ast.FuncDecl, names []string) []string {
 	return r
 }
 
+// fileUses lists, in source order, every call on a value of type *os.File ("file.Write") and every call
+// that is handed such a value ("arg:WriteTo", "arg:Fprintf"); "@loop" marks calls inside a loop.
+func fileUses(fd *ast.FuncDecl, p *packages.Package) []string {
+	var r []string
+	isFile := func(e ast.Expr) bool {
+		t := p.TypesInfo.TypeOf(e)
+		return t != nil && t.String() == "*os.File"
+	}
+	var walk func(n ast.Node, loop bool)
+	walk = func(n ast.Node, loop bool) {
+		ast.Inspect(n, func(m ast.Node) bool {
+			switch x := m.(type) {
+			case *ast.ForStmt:
+				if m != n {
+					walk(x.Body, true)
+					return false
+				}
+			case *ast.RangeStmt:
+				if m != n {
+					walk(x.Body, true)
+					return false
+				}
+			case *ast.CallExpr:
+				suffix := ""
+				if loop {
+					suffix = "@loop"
+				}
+				if sel, ok := x.Fun.(*ast.SelectorExpr); ok && isFile(sel.X) {
+					r = append(r, "file."+sel.Sel.Name+suffix)
+				}
+				for _, a := range x.Args {
+					if isFile(a) {
+						name := types.ExprString(x.Fun)
+						if i := strings.LastIndex(name, "."); i >= 0 {
+							name = name[i+1:]
+						}
+						r = append(r, "arg:"+name+suffix)
+					}
+				}
+			}
+			return true
+		})
+	}
+	walk(fd.Body, false)
+	return r
+}
+
 func writeIfChanged(path string, content string) bool {
 	old, err := os.ReadFile(path)
 	if err == nil && string(old) == content {
